@@ -103,7 +103,7 @@ def native_history(contract, conc):
         return {"inputs": {"v": v, "w": w}, "reproduced": True, "detail": f"{type(e).__name__}: {e}"}
     finally:
         S.other_process_writes = saved
-    want = v if contract.target.__name__ == "write_other_write_read" else w
+    want = w if contract.target.__name__ == "write_other_read" else v
     return {"inputs": {"v": v, "w": w}, "reproduced": got != want,
             "detail": f"real ProcessSyncGroup: {contract.target.__name__}(device, {v}, {w}) returned {got}, "
                       f"expected {want}"}
